@@ -205,11 +205,15 @@ func init() {
 		ID:    "C03",
 		Units: serveUnits,
 		Runs: []Run{
-			{Pkg: "fasthttp", Func: "vhC03ResponseFraming", Quick: map[string]int{"bodyLen": 3}, Thorough: map[string]int{"bodyLen": 6}},
+			{Pkg: "fasthttp", Func: "vhC03ResponseFraming", Quick: map[string]int{"bodyLen": 2}, Thorough: map[string]int{"bodyLen": 5}, PathCap: 1500000},
+			{Pkg: "fasthttp", Func: "vhC03TwoCalls", Quick: map[string]int{"bodyLen": 2}, Thorough: map[string]int{"bodyLen": 3}, PathCap: 1500000},
+			{Pkg: "fasthttp", Func: "vhC03HandSet", Quick: map[string]int{"bodyLen": 2}, Thorough: map[string]int{"bodyLen": 3}},
+			{Pkg: "fasthttp", Func: "vhC03StreamMismatch", Quick: map[string]int{"bodyLen": 3}, Thorough: map[string]int{"bodyLen": 6}},
+			{Pkg: "fasthttp", Func: "vhC03Timeout"},
 		},
 		Assume: []string{serveAssume,
-			"handler programs: status ∈ {200, 204, 304, 404, 999} × one body-building call from {SetBody, SetBodyString+AppendBody, SetBodyStream exact size, SetBodyStream unknown size, SetBodyRaw, SetBodyStreamWriter} with ≤ bodyLen arbitrary body bytes, answering GET or HEAD on HTTP/1.1, followed by a second fixed request; wire bytes are split by an independent RFC 9112 §6 reader (harness/fasthttp/c03.go)",
-			"message/headers/cookies set by the handler, compression, SkipBody, trailers, hand-set framing headers, short/long streams (size mismatch) and HTTP/1.0 are outside this check",
+			"handler programs: status ∈ {200, 204, 304, 404, 999} × one body-building call from {SetBody, SetBodyString+AppendBody, SetBodyStream exact size, SetBodyStream unknown size, SetBodyRaw, SetBodyStreamWriter} with ≤ bodyLen arbitrary body bytes (streams read in bulk, byte-wise, or delivering their last bytes together with io.EOF), answering GET or HEAD on HTTP/1.1, followed by a second fixed request; two such calls in a row (the second replacing the first); Content-Length / Transfer-Encoding / Connection set by hand before or after the body call; body streams one byte shorter or longer than the declared size; TimeoutError / TimeoutErrorWithCode answering GET, HEAD and HTTP/1.0 keep-alive; wire bytes are split by an independent RFC 9112 §6 reader that rejects a message carrying both Content-Length and Transfer-Encoding (harness/fasthttp/c03.go)",
+			"status message/other headers/cookies set by the handler (C05), compression (C22), SkipBody, trailers and three or more calls are outside this check",
 		},
 	})
 	register(&Property{
